@@ -70,6 +70,14 @@ def opaque(tag=None):
     return V("", "opaque", tag)
 
 
+class Alias:
+    """a local that only names a per-deme constant (self._generations): uses are translated as the attribute read itself, so hoisting the
+    lookup out of a loop does not change the translated program (the attribute is assigned nowhere in the translated methods)"""
+
+    def __init__(self, node):
+        self.node = node
+
+
 class MTr:
     def __init__(self, src, ctx, cls=None, fname="gen"):
         self.src, self.ctx, self.cls, self.fname = src, ctx, cls, fname
@@ -144,6 +152,8 @@ class MTr:
     def _expr(self, e, env, pre):
         if isinstance(e, ast.Name):
             if e.id in env:
+                if isinstance(env[e.id], Alias):
+                    return self._expr(env[e.id].node, env, pre)     # re-read where it is used
                 return env[e.id]
             self.bad(e, "unbound name")
         if isinstance(e, ast.Constant):
@@ -386,7 +396,13 @@ class MTr:
                 i = self._expr(e.func.value.slice, env, pre)
                 ch = self._expr(args[0], env, pre)
                 if i.ty == "nat" and ch.ty == "child":
+                    if getattr(ch, "joined", False):
+                        self.bad(e, "a child appended to the levels twice")
                     pre.append(f"p_append_level {i.code} {ch.code} ;;;")
+                    if isinstance(args[0], ast.Name):
+                        v2 = V(ch.code, "child")
+                        v2.joined = True               # from here on the child is the last deme of the state
+                        env[args[0].id] = v2
                     return V("tt", "unit")
                 self.bad(e, "append to a level")
         if self.ctx == "deme":
@@ -514,6 +530,9 @@ class MTr:
         if isinstance(s, ast.Assign) and len(s.targets) == 1:
             t = s.targets[0]
             env = dict(env)
+            if isinstance(t, ast.Name) and self.ctx == "deme" and dotted(s.value) in ("self._generations", "self.generations"):
+                env[t.id] = Alias(s.value)
+                return go(env)
             if isinstance(t, ast.Name):
                 pre, v = self.expr(s.value, env)
                 if v.ty in ("opaque", "childid", "options", "levelscfg"):
@@ -571,6 +590,9 @@ class MTr:
                 if isinstance(e.func, ast.Attribute) and e.func.attr == "add_child" and self.ctx == "tree" and len(e.args) == 1 and isinstance(e.args[0], ast.Name):
                     pre, par = self.expr(e.func.value, env)
                     ch = env.get(e.args[0].id)
+                    if par.ty == "deme" and isinstance(ch, V) and ch.ty == "child" and getattr(ch, "joined", False):
+                        # the child already joined its level: the parent link is set on the deme in the state (the last one)
+                        return " ".join(pre) + f" p_adopt_last {par.code} ;;;\n  " + go(env)
                     if par.ty == "deme" and isinstance(ch, V) and ch.ty == "child":
                         nm = self.fresh("ch")
                         env[e.args[0].id] = V(nm, "child")
